@@ -46,6 +46,7 @@ class RigWorld(World):
         out = []
         ch = self.ch
         hilo = len(st.hand_types) > 1
+        badugi = any('Badugi' in h.__name__ for h in st.hand_types)
         for _ in range(k):
             if not pool:
                 return k
@@ -57,6 +58,13 @@ class RigWorld(World):
                 same = [c for c in pool if any(c.rank == o.rank for o in others)]
                 if same:
                     pick = same[ch.pick('rig.card', len(same))]
+            elif kind == 'hole' and badugi and r == 2:
+                # small badugis: a card blocked by the player's own cards (same suit or same rank), so that the best
+                # two- and three-card subsets have to be found among several candidates
+                own = [c for c in st.hole_cards[player_index] if c] + out
+                blocked = [c for c in pool if any(c.rank == o.rank or c.suit == o.suit for o in own)]
+                if blocked:
+                    pick = blocked[ch.pick('rig.card', len(blocked))]
             elif kind == 'board' and hilo and r in (0, 1, 2):
                 lows = [c for c in pool if str(c.rank.value) in 'A2345678']
                 highs = [c for c in pool if str(c.rank.value) in '9TJQK']
@@ -289,6 +297,9 @@ def run(ch, ctx):
     bias = dict(BIAS)
     if ch.chance('c02.hilo', 2, 5):
         bias['variants'] = HILO
+    elif ch.chance('c02.badugi', 1, 6):
+        bias['variants'] = ('FB',)
+        ctx.count('badugi_focus_runs')
     cfg = gen_config(ch, bias)
     if cfg['chip'] == 'int':
         cfg['divmod'] = 'default'
